@@ -9,7 +9,7 @@ package system
 // AddOnRequest) or answered at once with a scheduler-queue-full error: exactly one of the two, for every
 // element of the batch; every dequeued completion has its callback invoked exactly once.
 //@ func (*System).Tick
-//@ props C12
+//@ props C12 C15
 //@ nopanic C13
 //@ records tick
 //@ funcvalue DequeueCQE.*\.Callback$ records cqe_callback
